@@ -17,9 +17,9 @@ NEXT_RES = "<_ as core::iter::traits::iterator::Iterator>::next"
 BB = "cozy_chess_types::bitboard::BitBoard"
 SQ = "cozy_chess_types::square::Square"
 
-ITER_TERMINALS = ("fold", "any", "all", "for_each", "find", "collect", "count", "try_fold")
-ITER_ADAPTORS = ("map", "filter", "copied", "cloned", "flatten", "filter_map")
-OPT_COMBINATORS = ("map", "map_or", "and_then", "is_some_and", "unwrap_or", "filter", "map_or_else")
+ITER_TERMINALS = ("fold", "any", "all", "for_each", "find", "collect", "count", "try_fold", "try_for_each")
+ITER_ADAPTORS = ("map", "filter", "copied", "cloned", "flatten", "filter_map", "enumerate", "flat_map")
+OPT_COMBINATORS = ("map", "map_or", "and_then", "is_some_and", "unwrap_or", "filter", "map_or_else", "ok_or", "transpose")
 BOOL_COMBINATORS = ("then_some", "then")
 
 
@@ -46,7 +46,7 @@ def opt_method(d):
     return None
 
 
-RES_COMBINATORS = ("or_else", "and_then", "map", "map_err")
+RES_COMBINATORS = ("or_else", "and_then", "map", "map_err", "ok")
 
 
 def res_method(d):
@@ -207,8 +207,10 @@ class Rewriter:
                 return None
             src, stages, blks = inner
             m = tail(dn)
-            if m in ("copied", "cloned", "flatten"):
+            if m in ("copied", "cloned", "flatten", "enumerate"):
                 stages = stages + [(m, None)]
+            elif m == "flat_map":
+                stages = stages + [("map", t["args"][1]), ("flatten", None)]
             else:
                 stages = stages + [(m, t["args"][1])]
             return src, stages, blks + [d[1]]
@@ -223,7 +225,8 @@ class Rewriter:
                     src, stages, blks = inner
                     return src, stages, blks + [("identity", d[1])]
             return l, [], []
-        if res.endswith("::iter") or res.endswith("::into_iter") or res.endswith("::iter_subsets") or res.endswith("::chars"):
+        if res.endswith("::iter") or res.endswith("::into_iter") or res.endswith("::iter_subsets") or res.endswith("::chars") or \
+                res in ("str::split", "str::rsplit", "core::str::<impl str>::split", "core::str::<impl str>::rsplit"):
             return l, [], []
         return None
 
@@ -248,6 +251,13 @@ class Rewriter:
                     y = self.new_local(self.ty(x)[1:].strip(), "item")
                     self.blocks[cur]["stmts"].append(self.assign(y, self.use(self.cp(x, ["deref"])), sp))
                     x = y
+                continue
+            if sm == "enumerate":
+                # (index kept in a counter that starts at 0 and goes up by one per element, element)
+                y = self.new_local("(usize, %s)" % self.ty(x), "indexed")
+                self.blocks[cur]["stmts"].append(self.assign(y, {"k": "agg", "ak": "tuple", "ops": [self.cp(cl), self.mv(x)]}, sp))
+                self.blocks[cur]["stmts"].append(self.assign(cl, {"k": "bin", "op": "Add", "a": self.cp(cl), "b": {"k": "const", "ty": "usize", "v": 1}, "aty": "usize"}, sp))
+                x = y
                 continue
             if sm == "map":
                 y = self.new_local(self.closure_ret_ty(cop), "mapped")
@@ -297,10 +307,40 @@ class Rewriter:
                 cur = nxt
         return cur, x
 
+    def stages_ok(self, item_ty, stages):
+        """the element types flowing through the stages are known well enough: flatten / filter_map only over Options
+        (an iterator of iterators would need a nested loop, which is not modelled: leave the call alone)"""
+        ty = item_ty
+        for sm, cop in stages:
+            if sm in ("copied", "cloned"):
+                ty = ty[1:].strip() if ty.startswith("&") else ty
+            elif sm == "map":
+                ty = self.closure_ret_ty(cop)
+            elif sm == "enumerate":
+                ty = "(usize, %s)" % ty
+            elif sm == "filter_map":
+                r = self.closure_ret_ty(cop)
+                if not r.startswith("core::option::Option<"):
+                    return False
+                ty = r[len("core::option::Option<"):-1]
+            elif sm == "flatten":
+                byref = ty.startswith("&")
+                t0 = ty[1:].strip() if byref else ty
+                if not t0.startswith("core::option::Option<"):
+                    return False
+                ty = ("&" if byref else "") + t0[len("core::option::Option<"):-1]
+        return True
+
     def source_item_ty(self, it):
         ty = self.ty(it)
+        if ty.startswith("core::array::iter::IntoIter<") and ", " in ty:
+            return ty[len("core::array::iter::IntoIter<"):].rsplit(", ", 1)[0]
         if "BitBoardIter" in ty or ty == BB:
             return SQ
+        if ty.startswith("core::str::iter::Chars<"):
+            return "char"
+        if ty.startswith("core::str::iter::Split<") or ty.startswith("core::str::iter::RSplit<"):
+            return "&str"
         if ty.startswith("core::slice::iter::Iter<"):
             inner = ty[len("core::slice::iter::Iter<"):-1]
             inner = inner.split(", ", 1)[1] if inner.startswith("'") and ", " in inner else inner
@@ -327,6 +367,10 @@ class Rewriter:
         for sm, _ in stages:
             if sm in ("copied", "cloned") and item_ty == "?":
                 return False
+            if sm == "enumerate":
+                return False        # the index lives across pulls; explicit loops over enumerate() are modelled by the engine itself
+        if not self.stages_ok(item_ty, stages):
+            return False
         pre = []
         stage_clos = [self.closure_local(cop, pre, sp) if cop is not None else None for sm, cop in stages]
         if pre:
@@ -429,18 +473,28 @@ class Rewriter:
         for sm, _ in stages:
             if sm in ("copied", "cloned") and item_ty == "?":
                 return False
+        if not self.stages_ok(item_ty, stages):
+            return False
         pre = []          # statements executed once, before the loop
         H_stmts = []
         # accumulator / result plumbing
         acc = None
-        if m == "try_fold":
-            rty = self.closure_ret_ty(t["args"][2])
-            if not rty.startswith("core::option::Option<"):
-                return False            # only the Option-valued form is rewritten
+        try_kind = None
+        if m in ("try_fold", "try_for_each"):
+            rty = self.closure_ret_ty(t["args"][2 if m == "try_fold" else 1])
+            if rty.startswith("core::option::Option<"):
+                try_kind = "option"
+            elif rty.startswith("core::result::Result<"):
+                try_kind = "result"
+            else:
+                return False            # only the Option- and Result-valued forms are rewritten
         if m in ("fold", "try_fold"):
             aty = self.locals[dest["l"]]["ty"] if not dest["p"] else "?"
             if m == "try_fold":
-                aty = aty[len("core::option::Option<"):-1] if aty.startswith("core::option::Option<") else "?"
+                if try_kind == "option":
+                    aty = aty[len("core::option::Option<"):-1] if aty.startswith("core::option::Option<") else "?"
+                else:
+                    aty = "?"
             acc = self.new_local(aty, "fold_acc")
             pre.append(self.assign(acc, self.use(t["args"][1]), sp))
             clos = self.closure_local(t["args"][2], pre, sp)
@@ -452,6 +506,11 @@ class Rewriter:
             clos = self.closure_local(t["args"][1], pre, sp)
         stage_clos = []
         for sm, cop in stages:
+            if sm == "enumerate":
+                c = self.new_local("usize", "index")
+                pre.append(self.assign(c, self.use({"k": "const", "ty": "usize", "v": 0}), sp))
+                stage_clos.append(c)
+                continue
             stage_clos.append(self.closure_local(cop, pre, sp) if cop is not None else None)
         # header: n = next(&mut it)
         n = self.new_local("core::option::Option<%s>" % item_ty)
@@ -469,9 +528,17 @@ class Rewriter:
         # exit block (iterator exhausted)
         if m in ("fold", "collect"):
             exit_stmts = [self.assign_pl(dest, self.use(self.mv(acc)), sp)]
-        elif m == "try_fold":
-            exit_stmts = [self.assign_pl(dest, {"k": "agg", "ak": "adt", "adt": "core::option::Option", "variant": "Some",
-                                                "vi": 1, "targs": [], "fields": ["0"], "ops": [self.mv(acc)]}, sp)]
+        elif m in ("try_fold", "try_for_each"):
+            if m == "try_fold":
+                fin = self.mv(acc)
+            else:
+                fin = {"k": "const", "ty": "()", "zst": True}
+            if try_kind == "option":
+                exit_stmts = [self.assign_pl(dest, {"k": "agg", "ak": "adt", "adt": "core::option::Option", "variant": "Some",
+                                                    "vi": 1, "targs": [], "fields": ["0"], "ops": [fin]}, sp)]
+            else:
+                exit_stmts = [self.assign_pl(dest, {"k": "agg", "ak": "adt", "adt": "core::result::Result", "variant": "Ok",
+                                                    "vi": 0, "targs": [], "fields": ["0"], "ops": [fin]}, sp)]
         elif m == "any":
             exit_stmts = [self.assign_pl(dest, self.use({"k": "const", "ty": "bool", "v": 0}), sp)]
         elif m == "all":
@@ -495,20 +562,36 @@ class Rewriter:
             a2 = self.new_local(self.ty(acc))
             back = self.new_block([self.assign(acc, self.use(self.mv(a2)), sp)], self.goto(H, sp))
             self.blocks[cur]["term"] = self.closure_call(clos, [self.mv(acc), self.mv(x)], a2, back, sp, self.blocks[cur]["stmts"])
-        elif m == "try_fold":
-            # acc = f(acc, x)?  : None leaves with None, Some(v) continues with v
-            rty = self.closure_ret_ty(t["args"][2])
+        elif m in ("try_fold", "try_for_each"):
+            # acc = f(acc, x)?  : None / Err(e) leaves with that value, Some(v) / Ok(v) continues with v
+            cop = t["args"][2 if m == "try_fold" else 1]
+            rty = self.closure_ret_ty(cop)
             r2 = self.new_local(rty)
             d2 = self.new_local("isize")
             chk = self.new_block([self.assign(d2, {"k": "discr", "pl": self.pl(r2), "of": rty}, sp)], None)
-            self.blocks[cur]["term"] = self.closure_call(clos, [self.mv(acc), self.mv(x)], r2, chk, sp, self.blocks[cur]["stmts"])
+            cargs = [self.mv(acc), self.mv(x)] if m == "try_fold" else [self.mv(x)]
+            self.blocks[cur]["term"] = self.closure_call(clos, cargs, r2, chk, sp, self.blocks[cur]["stmts"])
             U2 = self.new_block([], {"k": "unreachable", "sp": sp})
-            brk = self.new_block([self.assign_pl(dest, {"k": "agg", "ak": "adt", "adt": "core::option::Option", "variant": "None",
-                                                        "vi": 0, "targs": [], "fields": [], "ops": []}, sp)], self.goto(T, sp))
-            inner_ty = rty[len("core::option::Option<"):-1]
-            cont = self.new_block([self.assign(acc, self.use(self.cp(r2, [{"dc": 1, "n": "Some", "of": rty}, {"f": 0, "n": "0", "of": rty, "ty": inner_ty}])), sp)],
-                                  self.goto(H, sp))
-            self.blocks[chk]["term"] = {"k": "switch", "discr": self.mv(d2), "dty": "isize", "arms": [[0, brk], [1, cont]], "otherwise": U2, "sp": sp}
+            if try_kind == "option":
+                brk = self.new_block([self.assign_pl(dest, {"k": "agg", "ak": "adt", "adt": "core::option::Option", "variant": "None",
+                                                            "vi": 0, "targs": [], "fields": [], "ops": []}, sp)], self.goto(T, sp))
+                inner_ty = rty[len("core::option::Option<"):-1]
+                cproj = [{"dc": 1, "n": "Some", "of": rty}, {"f": 0, "n": "0", "of": rty, "ty": inner_ty}]
+                arms = [[0, brk], [1, None]]
+            else:
+                erx = self.new_local("?", "err")
+                erp = [{"dc": 1, "n": "Err", "of": rty}, {"f": 0, "n": "0", "of": rty, "ty": "?"}]
+                brk = self.new_block([self.assign(erx, self.use(self.cp(r2, erp)), sp),
+                                      self.assign_pl(dest, {"k": "agg", "ak": "adt", "adt": "core::result::Result", "variant": "Err",
+                                                            "vi": 1, "targs": [], "fields": ["0"], "ops": [self.mv(erx)]}, sp)], self.goto(T, sp))
+                cproj = [{"dc": 0, "n": "Ok", "of": rty}, {"f": 0, "n": "0", "of": rty, "ty": "?"}]
+                arms = [[1, brk], [0, None]]
+            if m == "try_fold":
+                cont = self.new_block([self.assign(acc, self.use(self.cp(r2, cproj)), sp)], self.goto(H, sp))
+            else:
+                cont = H
+            arms = sorted([[v_, (cont if b_ is None else b_)] for v_, b_ in arms])
+            self.blocks[chk]["term"] = {"k": "switch", "discr": self.mv(d2), "dty": "isize", "arms": arms, "otherwise": U2, "sp": sp}
         elif m == "collect":
             if self.ty(x) == BB:
                 b2 = x
@@ -638,6 +721,37 @@ class Rewriter:
             keep = self.new_block([self.assign_pl(dest, some(self.mv(x)), sp)], self.goto(T, sp))
             self.blocks[chk]["term"] = {"k": "switch", "discr": self.mv(tb), "dty": "bool", "arms": [[0, N]], "otherwise": keep, "sp": sp}
             self.blocks[N]["stmts"].append(self.assign_pl(dest, none, sp))
+        elif m == "ok_or":
+            # Some(x) => Ok(x), None => Err(e)
+            ev = self.new_local("?")
+            pre.append(self.assign(ev, self.use(t["args"][1]), sp))
+
+            def res(variant, vi, op):
+                return {"k": "agg", "ak": "adt", "adt": "core::result::Result", "variant": variant, "vi": vi, "targs": [], "fields": ["0"], "ops": [op]}
+            self.blocks[S]["stmts"].append(self.assign_pl(dest, res("Ok", 0, self.mv(x)), sp))
+            self.blocks[N]["stmts"].append(self.assign_pl(dest, res("Err", 1, self.mv(ev)), sp))
+        elif m == "transpose":
+            # None => Ok(None), Some(Ok(x)) => Ok(Some(x)), Some(Err(e)) => Err(e)
+            if not inner_ty.startswith("core::result::Result<"):
+                return False
+
+            def res(variant, vi, op):
+                return {"k": "agg", "ak": "adt", "adt": "core::result::Result", "variant": variant, "vi": vi, "targs": [], "fields": ["0"], "ops": [op]}
+            nn = self.new_local("?")
+            self.blocks[N]["stmts"].append(self.assign(nn, none, sp))
+            self.blocks[N]["stmts"].append(self.assign_pl(dest, res("Ok", 0, self.mv(nn)), sp))
+            d2 = self.new_local("isize")
+            self.blocks[S]["stmts"].append(self.assign(d2, {"k": "discr", "pl": self.pl(x), "of": inner_ty}, sp))
+            okx = self.new_local("?", "ok")
+            sm = self.new_local("?")
+            erx = self.new_local("?", "err")
+            okp = [{"dc": 0, "n": "Ok", "of": inner_ty}, {"f": 0, "n": "0", "of": inner_ty, "ty": "?"}]
+            erp = [{"dc": 1, "n": "Err", "of": inner_ty}, {"f": 0, "n": "0", "of": inner_ty, "ty": "?"}]
+            OKB = self.new_block([self.assign(okx, self.use(self.cp(x, okp)), sp), self.assign(sm, some(self.mv(okx)), sp),
+                                  self.assign_pl(dest, res("Ok", 0, self.mv(sm)), sp)], self.goto(T, sp))
+            ERB = self.new_block([self.assign(erx, self.use(self.cp(x, erp)), sp), self.assign_pl(dest, res("Err", 1, self.mv(erx)), sp)], self.goto(T, sp))
+            U3 = self.new_block([], {"k": "unreachable", "sp": sp})
+            self.blocks[S]["term"] = {"k": "switch", "discr": self.mv(d2), "dty": "isize", "arms": [[0, OKB], [1, ERB]], "otherwise": U3, "sp": sp}
         else:
             return False
         pre.append(self.assign(d, {"k": "discr", "pl": self.pl(o), "of": oty}, sp))
@@ -676,6 +790,16 @@ class Rewriter:
         U = self.new_block([], {"k": "unreachable", "sp": sp})
         OKB = self.new_block([self.assign(okx, self.use(self.cp(o, okp)), sp)], self.goto(T, sp))
         ERB = self.new_block([self.assign(erx, self.use(self.cp(o, erp)), sp)], self.goto(T, sp))
+        if m == "ok":
+            # Ok(x) => Some(x), Err(_) => None
+            self.blocks[OKB]["stmts"].append(self.assign_pl(dest, {"k": "agg", "ak": "adt", "adt": "core::option::Option", "variant": "Some", "vi": 1,
+                                                                    "targs": [], "fields": ["0"], "ops": [self.mv(okx)]}, sp))
+            self.blocks[ERB]["stmts"] = [self.assign_pl(dest, {"k": "agg", "ak": "adt", "adt": "core::option::Option", "variant": "None", "vi": 0,
+                                                               "targs": [], "fields": [], "ops": []}, sp)]
+            pre.append(self.assign(d, {"k": "discr", "pl": self.pl(o), "of": rty}, sp))
+            blk["term"] = {"k": "switch", "discr": self.mv(d), "dty": "isize", "arms": [[0, OKB], [1, ERB]], "otherwise": U, "sp": sp}
+            self.count += 1
+            return True
         cl = self.closure_local(t["args"][1], pre, sp)
         y = self.new_local(self.closure_ret_ty(t["args"][1]))
         if m == "or_else":
